@@ -72,6 +72,9 @@ type Run struct {
 	nSteps   int
 	poolSeq  int
 	clock    int64
+	// OnResume, if set, is called by the controller before every resumption of a thread:
+	// with a single thread these are exactly the statement boundaries (crash points).
+	OnResume func()
 }
 
 // Clock is a logical time that advances every time a thread is resumed; usable as
@@ -205,6 +208,9 @@ func (r *Run) Start() {
 		t := en[pick]
 		r.cur = t
 		r.clock++
+		if r.OnResume != nil {
+			r.OnResume()
+		}
 		if !t.started {
 			r.launch(t)
 		}
